@@ -16,7 +16,7 @@ PROVED here (all histories from an empty pool with any tick spacing > 0, admissi
    (emission on sync + re-deposited forfeits, never negative: `history_events_nonneg`) IF the current tick before the message
    was inside [lower, upper) — the incentive analogue of `C08.growth_inside_history` (laws shared through `insideI`).
 -/
-import OsmoVerif.Proofs.CLIncHist24
+import OsmoVerif.Proofs.CLIncHist25
 import OsmoVerif.Props.C08Inc
 
 namespace OsmoVerif.Props.C08IncHist
@@ -284,6 +284,40 @@ theorem twins_equal_incentives {s : Full} (hi : IncInv s) {q1 q2 : Position}
   simp only at e1 e2
   rw [← e1, ← e2, g1, g2]
 
+/-- **two positions created one after the other in the same block with the same range and resulting liquidity ARE twins**:
+identical records (liquidity, snapshot, unclaimed — as lists) in all six uptime accumulators and the same join time, i.e. the
+hypotheses of `twins_equal_incentives`. -/
+theorem twins_created_together_incentives {s s1 s2 : Full} {o1 o2 : String} {l1 u1 a0 a1 l2 u2 b0 b1 : Int} {id1 id2 : Nat}
+    {x0 x1 y0 y1 liq lo up : Int} (hi : IncInv s)
+    (h1 : CLInc.createPosition s o1 l1 u1 a0 a1 = some (s1, id1, x0, x1, liq, lo, up))
+    (h2 : CLInc.createPosition s1 o2 l2 u2 b0 b1 = some (s2, id2, y0, y1, liq, lo, up)) :
+    (∀ k, k < 6 → RecAgree (accAt s2.inc k) id1 id2) ∧ joinOf s2.inc id1 = joinOf s2.inc id2 ∧ id1 ≠ id2 := by
+  have hap1 : applyI s (.fee (.create o1 l1 u1 a0 a1)) = some s1 := by simp only [applyI, h1, Option.map_some]
+  have hi1 := (applyI_facts hi hap1).inv
+  have hap2 : applyI s1 (.fee (.create o2 l2 u2 b0 b1)) = some s2 := by simp only [applyI, h2, Option.map_some]
+  have hi2 := (applyI_facts hi1 hap2).inv
+  exact twins_created hi hi1 hi2 h1 h2
+
+/-- **twins created together earn equal incentives along any history** that addresses neither of them (combination of the two
+theorems above). -/
+theorem twins_created_together_earn_equal {s s1 s2 : Full} {o1 o2 : String} {l1 u1 a0 a1 l2 u2 b0 b1 : Int} {id1 id2 : Nat}
+    {x0 x1 y0 y1 liq lo up : Int} (hi : IncInv s)
+    (h1 : CLInc.createPosition s o1 l1 u1 a0 a1 = some (s1, id1, x0, x1, liq, lo, up))
+    (h2 : CLInc.createPosition s1 o2 l2 u2 b0 b1 = some (s2, id2, y0, y1, liq, lo, up))
+    (ops : List IOp) (ht : ∀ op ∈ ops, ¬ touchesI op id1 ∧ ¬ touchesI op id2)
+    {c1 c2 : Coins × Coins} (hc1 : claimableIncentives (runI s2 ops) id1 = some c1)
+    (hc2 : claimableIncentives (runI s2 ops) id2 = some c2) : c1 = c2 := by
+  have hap1 : applyI s (.fee (.create o1 l1 u1 a0 a1)) = some s1 := by simp only [applyI, h1, Option.map_some]
+  have hi1 := (applyI_facts hi hap1).inv
+  have hap2 : applyI s1 (.fee (.create o2 l2 u2 b0 b1)) = some s2 := by simp only [applyI, h2, Option.map_some]
+  have hi2 := (applyI_facts hi1 hap2).inv
+  obtain ⟨hag, hj, _⟩ := twins_created hi hi1 hi2 h1 h2
+  obtain ⟨_, eid1, _, _, _, epos1, _⟩ := createMin_facts hi.fees.pool.core hi.fees.acc (createMinI_fees h1)
+  obtain ⟨_, eid2, _, _, _, epos2, _⟩ := createMin_facts hi1.fees.pool.core hi1.fees.acc (createMinI_fees h2)
+  have m1 : (⟨id1, o1, lo, up, liq⟩ : Position) ∈ s2.fees.pool.positions := by rw [epos2, epos1]; simp
+  have m2 : (⟨id2, o2, lo, up, liq⟩ : Position) ∈ s2.fees.pool.positions := by rw [epos2]; simp
+  exact twins_equal_incentives hi2 m1 m2 ⟨rfl, rfl⟩ hag hj ops ht hc1 hc2
+
 /-- **a position whose range the price never entered earns no incentives, along any history**: fresh records (what creation
 produces, `create_gives_fresh_uptime_records`), no message of the history happened while the tick was in range, and the tick
 is out of range at the end (the query brings the accumulators to now at that tick) ⇒ nothing claimable — neither collected
@@ -384,6 +418,15 @@ example :
     (demoTw.fees.pool.positions.map fun q => (q.id, q.lower, q.upper)) = [(1, -1000, 1000), (2, 0, 2000), (3, 0, 2000)] ∧
     claimableIncentives (runI demoTw demoTwOps) 2 = some ([("inc0", 15841), ("inc1", 158)], []) ∧
     claimableIncentives (runI demoTw demoTwOps) 3 = some ([("inc0", 15841), ("inc1", 158)], []) := by
+  decide +kernel
+
+/-- bob and bert of the demo ARE created one after the other with the same resulting liquidity and range (hypotheses of
+`twins_created_together_incentives`). -/
+example :
+    ((CLInc.createPosition (runI demo0 (demoTwPre.take 4)) "bob" 0 2000 500000 500000).map fun x => (x.2.1, x.2.2.2.2)) =
+      some (2, 500749875124843813046785138, 0, 2000) ∧
+    ((CLInc.createPosition (runI demo0 (demoTwPre.take 5)) "bert" 0 2000 500000 500000).map fun x => (x.2.1, x.2.2.2.2)) =
+      some (3, 500749875124843813046785138, 0, 2000) := by
   decide +kernel
 
 /-- … and after the join times are fixed (`join_time_fixed`): alice joined at 0, bob and bert at 30 s, still so at 125 s. -/
